@@ -220,7 +220,7 @@ BindNative(env, id, alias) ==
 RequireBundled(m, form, spelling) ==
   /\ Prog
   /\ m \in ModsAt(steps)
-  /\ spelling # "plain" => steps = 0
+  /\ spelling # "plain" => steps = 0 /\ secure
   /\ LET newly == ModuleLoads(m) \ loaded
          exp   == {b \in GateSet(ModuleBinds(m)) : ~b.priv}
      IN /\ loaded' = loaded \cup newly
@@ -240,6 +240,7 @@ RequireBundled(m, form, spelling) ==
    module source directories is opened or probed.  First action only. *)
 RequireForeign(sp) ==
   /\ Prog
+  /\ secure
   /\ steps = 0
   /\ sp \in ForeignCore
   /\ UNCHANGED <<secure, legacy, flag, bound, reach, reach0, shadow, loaded, phase, latest>>
